@@ -8,7 +8,9 @@ import (
 	"fmt"
 	"io"
 	"os"
+	"path/filepath"
 	"sort"
+	"syscall"
 	"testing"
 
 	"gitlab.com/gomidi/midi/v2/smf"
@@ -95,6 +97,64 @@ func diff(got, want outcome) string {
 	}
 	if got.tempo != want.tempo {
 		return fmt.Sprintf("tempo map differs: %s vs %s", got.tempo, want.tempo)
+	}
+	return ""
+}
+
+// viaNamedPipe reads the bytes with smf.ReadFile from a FIFO that a goroutine feeds.
+func viaNamedPipe(b []byte, want outcome) string {
+	dir, err := os.MkdirTemp("", "verif-c09-")
+	if err != nil {
+		return ""
+	}
+	defer os.RemoveAll(dir)
+	path := filepath.Join(dir, "pipe.mid")
+	if err := syscall.Mkfifo(path, 0o600); err != nil {
+		return ""
+	}
+	go func() {
+		w, err := os.OpenFile(path, os.O_WRONLY, 0)
+		if err != nil {
+			return
+		}
+		half := len(b) / 2
+		w.Write(b[:half])
+		w.Write(b[half:])
+		w.Close()
+	}()
+	var s *smf.SMF
+	var rerr error
+	if p := ev.TryTimeout(ev.Watchdog, func() { s, rerr = smf.ReadFile(path) }); p != "" {
+		// unblock the writer if ReadFile never opened the pipe
+		if f, err := os.OpenFile(path, os.O_RDONLY|syscall.O_NONBLOCK, 0); err == nil {
+			f.Close()
+		}
+		return "smf.ReadFile on a named pipe: " + p
+	}
+	got := outcome{kind: "ok"}
+	switch {
+	case rerr == smf.ErrMissing:
+		got.kind = "missing"
+	case rerr != nil:
+		got = outcome{kind: "error", detail: rerr.Error()}
+	case s == nil:
+		got = outcome{kind: "panic", detail: "nil, nil"}
+	default:
+		got.format = s.Format()
+		got.div, _ = adapt.Division(s.TimeFormat)
+		got.tracks = adapt.Tracks(s)
+		for _, tc := range s.TempoChanges() {
+			got.tempo += fmt.Sprintf("%d:%v:%d;", tc.AbsTicks, tc.BPM, tc.AbsTimeMicroSec)
+		}
+	}
+	// ReadFile wraps errors of its own; only success / failure and the value are compared
+	if (got.kind == "ok") != (want.kind == "ok") {
+		return fmt.Sprintf("smf.ReadFile on a named pipe (%d bytes): %s %s; ReadFrom from memory: %s %s", len(b), got.kind, got.detail, want.kind, want.detail)
+	}
+	if got.kind == "ok" {
+		if d := diff(got, want); d != "" {
+			return "smf.ReadFile on a named pipe: " + d
+		}
 	}
 	return ""
 }
@@ -193,6 +253,13 @@ func run(c Case) (res ev.Result) {
 			res.Violation = s
 			return
 		}
+	}
+	// the file-based entry point on a path that is not a regular file: a named pipe (size unknown
+	// up front, data arrives in pieces)
+	if s := viaNamedPipe(b, want); s != "" {
+		n++
+		res.Violation = s
+		return
 	}
 	for _, eof := range []bool{false, true} {
 		if s := try("single read", []int{}, eof, &faultio.FragReader{Data: b, EOFWithData: eof}); s != "" {
@@ -324,7 +391,7 @@ func genCase(t *rapid.T) Case {
 }
 
 var files = ev.NewCheck("C09", "files",
-	"rapid: valid files from the byte-level grammar (C02 domain, payloads <= 200) and from the library's writer (C01 domain), whole or truncated at a drawn offset (for half of the whole files additionally EVERY truncation, each read from memory vs. single read with EOF, byte-wise, last byte together with EOF, two halves); payloads <= 200 bytes, in one case of ten up to 70000 bytes (crossing the 4 KiB / 64 KiB buffer thresholds; for files > 1500 bytes the split points are all offsets around field boundaries and size thresholds plus a stride); per file: one-byte reads, a single read, a bufio.Reader, a reader whose Seek method fails, a real os.Pipe, EVERY single split point, 1..5 random partitions, each with and without the final bytes delivered together with io.EOF; readers never return 0 bytes without error; every second read with a logger attached through smf.Log (compared with the read from memory made the same way); oracle = differential against smf.ReadFrom(bytes.Reader): both fail or both succeed, same failure kind (nil / ErrMissing / other), deep-equal value (format, division, events, tempo map); the per-fragmentation counts are in part 'fragmentations'",
+	"rapid: valid files from the byte-level grammar (C02 domain, payloads <= 200) and from the library's writer (C01 domain), whole or truncated at a drawn offset (for half of the whole files additionally EVERY truncation, each read from memory vs. single read with EOF, byte-wise, last byte together with EOF, two halves); payloads <= 200 bytes, in one case of ten up to 70000 bytes (crossing the 4 KiB / 64 KiB buffer thresholds; for files > 1500 bytes the split points are all offsets around field boundaries and size thresholds plus a stride); per file: one-byte reads, a single read, a bufio.Reader, a reader whose Seek method fails, a real os.Pipe, smf.ReadFile on a named pipe, EVERY single split point, 1..5 random partitions, each with and without the final bytes delivered together with io.EOF; readers never return 0 bytes without error; every second read with a logger attached through smf.Log (compared with the read from memory made the same way); oracle = differential against smf.ReadFrom(bytes.Reader): both fail or both succeed, same failure kind (nil / ErrMissing / other), deep-equal value (format, division, events, tempo map); the per-fragmentation counts are in part 'fragmentations'",
 	genCase, run)
 
 func TestPropFiles(t *testing.T) { files.Rapid(t, 100, 3000) }
